@@ -253,6 +253,12 @@ class Mode:
             if handlers:
                 return [n.split(".")[-1] for n in handlers[-1].a]
             return ["UNKNOWN"]
+        if op(t) == "cls" and t[1] in self.cx.model.classes:
+            # `raise SomeError` (the class, not an instance): Python instantiates it without
+            # arguments - a TypeError if its __init__ needs some
+            init = self.cx.model.find_method(self.cx.model.classes[t[1]], "__init__")
+            if init is not None and any(p.default is None and p.kind == "pos" for p in init.params[1:]):
+                return ["TypeError"]
         if op(t) == "call":
             t = t[1]
         if op(t) in ("cls", "func"):
@@ -286,6 +292,8 @@ class Mode:
                             res.raises.add(Esc("TypeError", fn.qualname, line, ("empty-iterable", show(c)[:50])))
                         continue
                     callee = self.resolve(fn, c)
+                    if callee is None and op(f) == "cls" and f[1] in self.cx.model.classes:
+                        callee = self.cx.model.find_method(self.cx.model.classes[f[1]], "__init__")
                     if callee is None:
                         continue
                     for A2 in self.callee_assignments(callee, c, A):
@@ -293,6 +301,12 @@ class Mode:
                         for e in sub.raises:
                             if not self._caught(e.cls, cov):
                                 res.raises.add(Esc(e.cls, e.origin, e.line, (fn.qualname,) + e.via))
+                elif op(c) == "bin" and c[1] == "%" and (op(c[2]) in ("concat", "fmt") or (op(c[2]) == "param" and op(c[3]) in ("tuple", "star", "param", "attr", "call"))):
+                    # printf-style formatting with a template that is not a literal: data containing
+                    # '%' makes it raise TypeError / ValueError
+                    for cls_ in ("TypeError",):
+                        if not self._caught(cls_, cov):
+                            res.raises.add(Esc(cls_, fn.qualname, line, ("%-format", show(c[2])[:40])))
                 elif op(c) == "item":
                     b = c[1]
                     if op(b) == "attr" and b[2] in TABLE_ATTRS and op(b[1]) == "param":
